@@ -57,7 +57,14 @@ Print Assumptions closures_exclusive.
 (* For every operation list (any requests, any arguments, Start/Stop anywhere, a source of any kind that
    may end by itself at any moment, any injected I/O failure) and every schedule: nothing crashes and no
    reachable state is stuck — some thread can move unless the client has finished all its operations.
-   (The step bound f(B) of the design is not proved: this is the safety half.) *)
+   PARTIAL.  What remains is exactly Proofs3.no_wedge_full_statement (a Definition, not proved): a uniform bound
+   f(#operations, B, R) on the number of counted steps along every schedule, under two explicit fairness
+   parameters — B, the blocks the producer may still emit after abortSelf is closed (as in C10's stop_returns),
+   and R, how often over the run the core loop's select may prefer a block to a request that is waiting in its
+   send (Go's select is random among ready cases, so without R no bound exists).  What IS proved here: nothing
+   crashes, and in no reachable state is the system stuck — in particular a call in progress is never blocked for
+   good: some thread can always move until the client has finished.  A variant-function proof as in
+   C10/Variant.v would need R as a decreasing state component of the model. *)
 Theorem no_wedge_partial :
   forall c ns np B os s, c_fixed c = true -> Reachable (step c) (Init ns np B os) s ->
     crashed s = false /\ ((exists t s', step c s t = Some s') \/ finished s = true).
